@@ -48,6 +48,8 @@ def index_vars(body):
         if isinstance(x, dict):
             if x.get("k") == "idx":
                 n = vocab.DECL[x["arr"]]["n"] if x["arr"] in vocab.DECL else 4
+                if x["arr"] == "p":
+                    n = 8           # p points at arr[8]
                 for v in render.names_in(x["i"]):
                     lim[v] = min(lim.get(v, 255), n - 1)
             for v in x.values():
@@ -122,7 +124,8 @@ def make_inputs(case, vt, rnd, maxin, small=False):
             elif d["kind"] == "a":
                 inp[n] = list(case.get("init", {}).get(n, DEFAULTS.get(n, [(i * 37 + 5) % 256 for i in range(d["n"])])))
             elif d["kind"] == "p":
-                inp[n] = case.get("init", {}).get(n, 0)
+                # pointers point at the start of the byte array unless the case says otherwise
+                inp[n] = case.get("init", {}).get(n, vt["arr"]["addr"] if "arr" in vt and vt["arr"]["addr"] < 256 else 0)
             else:
                 inp[n] = DEFAULTS.get(n, 0xA5 if d["w"] == 8 else 0xA55A)
         for n, v in zip(names, t):
